@@ -618,7 +618,7 @@ pub fn strategy(shapes: Vec<Shape>) -> impl Strategy<Value = Case> {
 }
 
 pub fn run_check(ctx: &mut Ctx) {
-    ctx.rule = "projects of 10 shapes (grammar programs with hostile trivia; the same with character mutations; fragments of the example sources; extreme integers from a boundary list (up to 2^63 and beyond, nothing excluded) as arguments of .align/.loop/* =/shifts/division/segment and bank options, strings that double, defined() inside defined(), import of `super`; import graphs over <= 4 files incl. self-import, cycles, diamonds, missing files, sub-directories; mutually dependent segments; nested loops with branches at the edge of range; forward branches, immediates, loop counts and alignments whose value is within a few bytes of the limit; hostile names; nesting up to depth 64) run through parse -> codegen(build) -> merge/listing/vice -> format -> codegen(greedy analysis) in worker sub-processes. oracle: no panic, no abnormal exit, no repeated pass-state digest (proof of non-termination), no worker whose threads all sleep without an answer (deadlock), binary or diagnostic, diagnostic spans inside project files. non-trivial = >= 2 files, extreme integers, >= 3 passes or mutated; distinct by case hash".into();
+    ctx.rule = "projects of 10 shapes (grammar programs with hostile trivia; the same with character mutations; fragments of the example sources; extreme integers from a boundary list (up to 2^63 and beyond, nothing excluded) as arguments of .align/.loop/* =/shifts/division/segment and bank options, strings that double, defined() inside defined(), import of `super`; import graphs over <= 4 files incl. self-import, cycles, diamonds, missing files, sub-directories; mutually dependent segments; nested loops with branches at the edge of range; forward branches, immediates, loop counts and alignments whose value is within a few bytes of the limit; hostile names; nesting of blocks, parentheses, calls and configuration maps up to 6000 levels and single expressions of up to 240000 terms, which have to be rejected beyond 64 levels / 512 factors) run through parse -> codegen(build) -> merge/listing/vice -> format -> codegen(greedy analysis) in worker sub-processes. oracle: no panic, no abnormal exit, no repeated pass-state digest (proof of non-termination), no worker whose threads all sleep without an answer (deadlock), binary or diagnostic, diagnostic spans inside project files. non-trivial = >= 2 files, extreme integers, >= 3 passes or mutated; distinct by case hash".into();
     ctx.assumptions.push("pass observer hook digest covers everything that determines the next pass; a watchdog kill or the pass bound is inconclusive, never a violation".into());
     let all = vec![Shape::Grammar, Shape::Mutated, Shape::Extreme, Shape::Extreme, Shape::ImportGraph, Shape::ImportGraph, Shape::SegmentDeps, Shape::NestedLoops, Shape::Names, Shape::Nesting, Shape::Fragments, Shape::Borderline];
     let n = ctx.tier.pick(64_000, 1_600_000);
